@@ -8,6 +8,7 @@ package main
 import (
 	"fmt"
 	"os"
+	"strings"
 	"time"
 
 	"verif/lib/dbh"
@@ -80,8 +81,19 @@ func main() {
 			params := &kvseq.Params{Cfg: c.Cfg, ClientOps: c.Ops, MaxClient: c.MaxClient, MaxMaint: c.MaxMaint,
 				WithGC: c.GC, WithReopen: c.Reopen, Macro: c.Macro, Dedup: true, RichSig: true, BaseDir: fmt.Sprintf("%s/s%d-c%d", base, sh.Index, ci)}
 			sub := vr.NewPartial()
-			// every configuration gets an equal share of what is left of the budget
-			share := time.Now().Add(r.Remaining() / time.Duration(len(cfgs)-ci))
+			// every configuration gets its share of what is left of the budget; the two-key
+			// configuration (the only one with several tables per level) counts double
+			weight := func(c config) int64 {
+				if strings.HasPrefix(c.Name, "twokey") {
+					return 2
+				}
+				return 1
+			}
+			var rest int64
+			for _, o := range cfgs[ci:] {
+				rest += weight(o)
+			}
+			share := time.Now().Add(time.Duration(int64(r.Remaining()) * weight(c) / rest))
 			expired := func() bool {
 				if time.Now().After(share) {
 					sub.TimedOut = true
